@@ -554,6 +554,8 @@ KV = "nostr_relay/storage/kv.py"
 WEB = "nostr_relay/web.py"
 
 MUTANTS = [
+    M("c13-close-json-id", WEB, "                    sub_id = str(message[1])\n                    await storage.unsubscribe(client_id, sub_id)", "                    sub_id = json_dumps(message[1])\n                    await storage.unsubscribe(client_id, sub_id)", "C13.subid"),
+    M("c13-req-raw-id", WEB, "                    sub_id = str(message[1])\n                    await storage.subscribe(", "                    sub_id = message[1]\n                    await storage.subscribe(", "C13.subid"),
     M("c13-db-sentinel-out-of-finally", DB, "        finally:\n            # always end with EOSE, even if the output validator raised\n            await queue.put((sub_id, None))",
       "        finally:\n            pass\n        await queue.put((sub_id, None))", "C13.eose", canary=True),
     M("c13-kv-sentinel-uncaught", KV, "            except Exception:\n                self.log.exception(\"run_query\")\n            finally:\n                await queue_put((sub_id, None))\n                analyze(plans)",
